@@ -28,6 +28,11 @@ def eval_toks(toks, algo):
 def run_script(lines, timeout=900):
     h = os.path.join(core.BUILD, "verifh")
     rc, out, err = core.run_lines(h, ["dkgrun"], lines, timeout=timeout, env=dict(os.environ, GOMEMLIMIT="3GiB"))
+    if rc == 3:
+        # an op did not return: the harness dumped every goroutine's stack
+        dump = os.path.join(core.BUILD, f"dkgrun_wedged_{os.getpid()}.txt")
+        open(dump, "w").write("\n".join(lines) + "\n----\n" + err)
+        raise core.Broken("harness:dkgrun", f"an op did not return within 240 s (process wedged); goroutine dump in {dump}; last op: {out[-1][:200] if out else '?'}")
     if rc != 0 or len(out) != len(lines):
         raise core.Broken("harness:dkgrun", f"exit {rc}, {len(out)}/{len(lines)} lines: {err[-1500:]}")
     res = []
